@@ -43,7 +43,10 @@ func runC03(c *an.Ctx) {
 	r035(c, "R03.5")
 	g := analyseGuarded(c)
 	reportGuarded(c, "R03.6", g, func(s string) bool { return s == "internal/minibus.Bus" })
+	registryRebuild(c, "R03.6")
 	r037(c)
+	r045as(c, "R03.8") // forwarding loops drop events only by configuration (else the last event is not the final value)
+	c.Min("R03.8", 2)
 	c.Min("R03.1", 2)
 	c.Min("R03.2", 3)
 	c.Min("R03.3", 3)
